@@ -115,3 +115,40 @@ def run(ctx):
                    'a value that may be chained is read through ONE locked view of the log overlay, not through the RwLock flavour that locks per part' + (' [single-part: %s]' % why if why else ''),
                    why is not None, 'reads parts under separate acquisitions of Log.overlays: a record published in between tears the value', b.loc(bi))
     ctx.ob('5b value-read-sites', 'anchor', '-', 'the value read call sites that are handed the log overlay were found', n >= 1, 'found %d' % n)
+    # 6. the parts of a chain are linked in no particular order: released parts go onto a LIFO free list, so a chain built from
+    # recycled slots links backwards. Nothing on the read or release path may compare a next-part link with the slot it was read
+    # from for ORDER (equality - a self loop - is a different matter): such a test rejects or truncates validly stored values.
+    n6 = 0
+    for b in sorted(F.bodies.values(), key=lambda x: x.path):
+        if not b.path.startswith('table::ValueTable::') or not b.call_sites('re:^table::Entry::<.*>::read_next$'):
+            continue
+        n6 += 1
+        bad = []
+        for bi in b.normal_blocks():
+            for st in b.blocks[bi]['s']:
+                if st['k'] != 'assign' or st['r']['k'] != 'bin' or st['r']['op'] not in ('Lt', 'Le', 'Gt', 'Ge'):
+                    continue
+                ops = [a for a in st['r']['a']]
+                sls = [backward_slice(b, [op_place(a)]) if op_place(a) is not None else None for a in ops]
+                if len(sls) != 2 or None in sls:
+                    continue
+                def is_link(a):
+                    # the operand is a link just read: a copy of the result of Entry::read_next (both operands of a test inside the
+                    # walk loop DERIVE from links - the position is the previous link - so the data slice cannot tell them apart)
+                    r = lib.root_local(b, a)
+                    return r is not None and any(d[2] == 'call' and call_matches(d[3], ['re:Entry::<.*>::read_next$']) for d in b.defs().get(r, []))
+                link = [is_link(a) for a in ops]
+                # the slot position: the index parameter (2) or a local that is re-assigned from a link (the loop variable)
+                def is_pos(a, sl):
+                    r = lib.root_local(b, a)
+                    if r is None:
+                        return False
+                    if b.names.get(r) in ('index', 'slot', 'offset', 'position'):
+                        return True
+                    return 1 <= r <= b.argc and str(b.locals[r]) == 'u64'
+                pos = [is_pos(a, sl) for a, sl in zip(ops, sls)]
+                if (link[0] and pos[1]) or (link[1] and pos[0]):
+                    bad.append(b.loc(bi))
+        ctx.ob('6a chain-links-carry-no-order %s' % b.path, 'K3-guard', b.path, 'no ordering comparison between a next-part link and the position of the slot it was read from', not bad, 'ordering test at %s' % bad)
+    ctx.ob('6a0 chain-walkers', 'anchor', 'table::ValueTable', 'the functions that follow next-part links were found (reader, release, in-place rewrite)', n6 >= 3, 'found %d' % n6)
+
